@@ -17,7 +17,7 @@ MUTATORS = {'set_n_ids', 'set_dim_names', 'set_parameter_names',
             'set_covariate_names', 'fix', 'wrap_reduced', 'wrap_composed',
             'set_population_parameters', 'mech_config'}
 OBSERVERS = {'compose_hier', 'compose_filter', 'compose_poppred',
-             'compose_ll'}
+             'compose_ll', 'compose_controller'}
 ALWAYS_OBSERVED = True
 
 RULE = ('seeded generation of population-model compositions (kinds cycled by '
@@ -508,6 +508,115 @@ def run(scenario, world):
                 fail('poppred.accepts_vector', 'raises',
                      'n_samples = n_ids = %d: %r\n%s' % (cur_k, s, s.tb),
                      step)
+        elif o == 'compose_controller':
+            import pandas as pd
+            kk = op['n_ids']
+            n_mech = pm.n_dim() - n_err(llspec)
+            if n_mech < 1:
+                continue
+            if 'toy' in llspec:
+                mech = zoo.toy_mech(n_mech, llspec['toy']['n_outputs'])
+            else:
+                mech = zoo.build_mech(dict(llspec['mech']))
+            errs = [zoo.build_error(e) for e in llspec['errors']]
+            if any(e['cls'] is None for e in llspec['errors']):
+                continue
+            ctrl = call(chi.ProblemModellingController, mech, errs)
+            if is_exc(ctrl):
+                fail('op.compose_controller', 'raises', '%r\n%s' % (
+                    ctrl, ctrl.tb), step)
+            n0, names0 = check_named(
+                ctrl, step, 'controller', n_of=ctrl.get_n_parameters,
+                names_of=ctrl.get_parameter_names)
+            if n0 != pm.n_dim():
+                continue
+            rows = []
+            outs = mech.outputs()
+            for i in range(kk):
+                for j, o_ in enumerate(outs):
+                    for t_, v in zip(llspec['times'][j], llspec['obs'][j]):
+                        rows.append({'ID': 'id%d' % i, 'Time': t_,
+                                     'Observable': o_, 'Value': v})
+                for c in range(pm.n_covariates()):
+                    rows.append({'ID': 'id%d' % i, 'Time': np.nan,
+                                 'Observable': 'cov%d' % c,
+                                 'Value': cov_vals[(i + c) % len(cov_vals)]})
+            df = pd.DataFrame(rows)
+            r = call(ctrl.set_population_model, pm)
+            if is_exc(r):
+                if ok_exc(r):
+                    continue
+                fail('op.compose_controller', 'set_population_model',
+                     '%r\n%s' % (r, r.tb), step)
+            kw = {'dose_key': None, 'dose_duration_key': None}
+            if pm.n_covariates():
+                kw['covariate_dict'] = dict(
+                    (nm, 'cov%d' % c)
+                    for c, nm in enumerate(pm.get_covariate_names()))
+            r = call(ctrl.set_data, df, **kw)
+            if is_exc(r):
+                if ok_exc(r) or r.type in ('ValueError',) and (
+                        'covariate' in r.msg.lower()):
+                    world.probe('controller_data_rejected')
+                    continue
+                fail('op.compose_controller', 'set_data', '%r\n%s' % (
+                    r, r.tb), step)
+            cur_k = kk
+            n1, names1 = check_named(
+                ctrl, step, 'controller', n_of=ctrl.get_n_parameters,
+                names_of=ctrl.get_parameter_names)
+            # (set_data documents that it releases fixed population
+            # parameters: the controller works on the wrapped model)
+            eff = pm.get_population_model() if isinstance(
+                pm, chi.ReducedPopulationModel) else pm
+            if n1 != eff.n_parameters() or names1 != list(
+                    eff.get_parameter_names()):
+                fail('controller.name_order', 'population',
+                     'controller %s %s, population model %s %s' % (
+                         n1, names1, eff.n_parameters(),
+                         eff.get_parameter_names()), step)
+            nb = call(lambda: int(ctrl.get_n_parameters(
+                exclude_pop_model=True)))
+            nmb = call(lambda: list(ctrl.get_parameter_names(
+                exclude_pop_model=True)))
+            if is_exc(nb) or is_exc(nmb) or nb != len(nmb) or nb != n0:
+                fail('controller.count_names', 'bottom',
+                     '%s names %s (model has %d)' % (
+                         short(nb), short(nmb), n0), step)
+            if n1 >= 1:
+                r = call(ctrl.set_log_prior, zoo.build_prior(
+                    {'n': n1, 'kind': 'lognormal'}))
+                if is_exc(r):
+                    fail('controller.prior_dimension', 'rejected',
+                         'prior of dimension get_n_parameters() = %d: %r' % (
+                             n1, r), step)
+                post = call(ctrl.get_log_posterior)
+                if is_exc(post):
+                    if not ok_exc(post):
+                        fail('controller.posterior', 'raises', '%r\n%s' % (
+                            post, post.tb), step)
+                else:
+                    n, names, ids, n_top = check_hier(
+                        post, vals, step, 'ctrlpost', world, False)
+                    if n_top != n1:
+                        fail('controller.count_names', 'top',
+                             'posterior top-level %d, controller %d' % (
+                                 n_top, n1), step)
+                    v = call(post, _in_support(vals, n))
+                    if is_exc(v) and not ok_exc(v):
+                        fail('ctrlpost.accepts_vector', 'raises',
+                             'vector of length %d: %r\n%s' % (n, v, v.tb),
+                             step)
+                    world.probe('controller_posterior_checked')
+            pmod = call(ctrl.get_predictive_model)
+            if is_exc(pmod):
+                fail('controller.predictive_model', 'raises', '%r\n%s' % (
+                    pmod, pmod.tb), step)
+            check_named(pmod, step, 'ctrlpred')
+            # set_data documents that it resets fixed population parameters:
+            # it drops a reduced wrapper and works on the wrapped model, which
+            # is therefore what the history continues with
+            pm = eff
         elif o == 'compose_filter':
             ns = op['n_samples']
             n_mech = pm.n_dim()
@@ -749,7 +858,7 @@ def _generate(rng, index, tier):
              'set_covariate_names', 'wrap_reduced', 'fix', 'fix',
              'set_population_parameters', 'wrap_composed', 'compose_hier',
              'compose_hier', 'compose_ll', 'compose_poppred',
-             'compose_filter']
+             'compose_filter', 'compose_controller']
     enabled = [k for k in kinds if rng.random() < 0.7] or kinds
     for _ in range(n_ops):
         o = rng.choice(enabled)
@@ -776,7 +885,7 @@ def _generate(rng, index, tier):
             op['with'] = [_strip(gen_leaf(rng, rng.choice(leaves), n_ids0))
                           for _ in range(rng.randint(1, 2))]
             op['front'] = rng.random() < 0.5
-        elif o == 'compose_hier':
+        elif o in ('compose_hier', 'compose_controller'):
             op['n_ids'] = rng.randint(1, 4)
         elif o == 'compose_filter':
             op['n_samples'] = rng.randint(2, 4)
